@@ -19,3 +19,5 @@ def _s3(ctx):
 
 
 STRUCTURAL = [_s3]
+
+FUNCTIONS = FUNCTIONS + [M + '__init__', N + 'assert_valid_input']
